@@ -61,6 +61,17 @@ PLANS = {
                 "spun >= 600 times in a retry loop / performed >= 600 unproductive attempts) + delivery of everything accepted; non-trivial = a setter was really suspended",
                 [ser(25)], [ser(240), ser(80, flavor="checked")], 500, 5000,
                 ["'for however long' is restated as: suspended until everybody else has finished (a finite run cannot observe more)", "stall threshold K=600 consecutive unproductive steps per thread"]),
+    "C13": plan("one evaluation = one concurrent history of 2-4 threads (alloc_ref / alloc_with, hold, dealloc_id / dealloc_ref, exhaust-until-None and refill bursts) on an OgreArrayPoolAllocator "
+                "over either free-list ring, POOL_SIZE in {2,4,8}, free-list sequence counters starting at 0, next to the 32-bit wrap or anywhere; online ownership-table monitor (one atomic per slot, "
+                "cleared before dealloc), owner tag integrity, id<->reference bijection; offline WGL linearizability against an id-pool model; exhaust-and-refill probe afterwards; workload `long`: "
+                "2-8 free-running threads, 20k-100k operations each under the online monitor only; distinct = distinct observed history",
+                [ser(12), free(8), dict(flavor="fast", lane="free", secs=6, shards=8, args=["--set", "workload=long"]), ser(5, flavor="checked", shards=8)],
+                [ser(150), free(100), dict(flavor="fast", lane="free", secs=100, args=["--set", "workload=long"]), ser(60, flavor="checked"), dict(flavor="asan", lane="free", secs=60, crash_is_violation=True)], 2000, 20000),
+    "C14": plan("one evaluation = one execution of 2-3 threads running scripts over {clone, drop, deref, increment_references+raw_copy, move to another thread, references_count} on handles to 1-2 pooled "
+                "values with destructors created through new / new_with / new_with_clones<2|3> / from_allocated / OgreUnique::new (+ into_ogre_arc or plain drop); oracles: drop tracker (destroyed "
+                "while held / not destroyed with the last handle / twice), deref identity, references_count() == live handles at the quiescent end, all POOL_SIZE slots allocatable afterwards; "
+                "distinct = distinct (schedule, scripts)",
+                [ser(12), free(8), ser(5, flavor="checked", shards=8)], [ser(150), free(100), ser(60, flavor="checked"), dict(flavor="asan", lane="free", secs=60, crash_is_violation=True)], 2000, 20000),
 }
 
 LEVEL_NOTE = ("trusted base: the harness (conductor/chaos scheduler, recorder, checkers), the placement of the hook sites, x86-64/TSO for the free-running lane, "
@@ -94,4 +105,10 @@ META = {
     "C20": meta("conductor", "runtime monitoring: serialized scheduler with a harness-controlled suspension of the async setter; stall (no-progress) verdict instead of time-outs; delivery oracle",
                 "Randomised exploration of serialized executions with one or two async sends held suspended; blocking of any other operation shows up as an exact stall state, not a time-out.",
                 "DESIGN.md section 2, C20"),
+    "C13": meta("conductor+chaos+asan", "runtime monitoring: online ownership-table monitor (shadow state updated before the real release) + offline WGL linearizability of alloc/dealloc histories against an id-pool model; AddressSanitizer lane in thorough",
+                "Randomised exploration of concurrent alloc/dealloc histories on the real allocator with an exclusive-ownership monitor and an exact linearizability check of short histories.",
+                "DESIGN.md section 2, C13"),
+    "C14": meta("conductor+chaos+asan", "runtime monitoring: instrumented payload (drop tracker) + harness shadow of live handles, checked at quiescent points; controlled scheduling around the clone/drop sites; AddressSanitizer lane in thorough",
+                "Randomised exploration of handle scripts on 2-3 threads with the decisive placements (two last handles dropped at once, clone racing a final drop) forced by the scheduler.",
+                "DESIGN.md section 2, C14"),
 }
